@@ -41,7 +41,11 @@ ArithDescs ==
 BadDescs == [i \in DOMAIN BadPairs |-> <<"x", AOps[((i + Seed) % 4) + 1], BadPairs[i][1], BadPairs[i][2]>>]
 EqualsDescs == [i \in DOMAIN GridSeq |-> <<"e", "equals", GridSeq[i], One>>]
 
-Descs == MyCases(UnaryDescs \o SameDescs \o ArithDescs \o BadDescs \o EqualsDescs)
+(* the SAME tensor object in both operand slots (memos keyed by identity, shortcuts for "identical operands") *)
+SelfShapes == <<<<>>, <<3>>, <<2, 3>>, <<2, 1, 2>>>>
+SelfDescs == Flatten2([i \in DOMAIN SelfShapes |-> [f \in DOMAIN SameOps |-> <<"self", SameOps[f], SelfShapes[i]>>]
+                                                  \o [f \in DOMAIN AOps |-> <<"self", AOps[f], SelfShapes[i]>>]])
+Descs == MyCases(UnaryDescs \o SameDescs \o ArithDescs \o BadDescs \o EqualsDescs \o SelfDescs)
 
 (* tinypos / tinymix: DISTINCT neighbours closer than the library's equality tolerance (1e-240) *)
 UDom(op, k) == CASE op = "log" -> "pos,wide,tinypos"
@@ -64,6 +68,9 @@ Build(d) ==
                    <<Ins(d[2], NoPar, <<1, 2>>),
                      Ins("broadcast", [shape |-> t], <<1>>), Ins("broadcast", [shape |-> t], <<2>>),
                      Ins(d[2], NoPar, <<4, 5>>)>>, <<3, 4, 5, 6>>, 0, TRUE)
+    [] d[1] = "self" ->
+         MkCase("c03", d[2] \o "-same-object", <<In("a", d[3], FALSE)>>, <<IF d[2] = "div" THEN "nz,wide,nz" ELSE "any,wide,zero,ties">>,
+                <<Ins(d[2], NoPar, <<1, 1>>)>>, <<2>>, 0, TRUE)
     [] d[1] = "x" ->
          MkCase("c03", d[2], <<In("a", d[3], FALSE), In("b", d[4], FALSE)>>, <<"any", "any">>,
                 <<Ins(d[2], NoPar, <<1, 2>>)>>, <<>>, 0, TRUE)
@@ -79,5 +86,5 @@ Build(d) ==
 Cases == [i \in DOMAIN Descs |-> Build(Descs[i])]
 
 ASSUME Write(Cases)
-ASSUME PrintT(<<"generated", Len(Cases), "of", Len(UnaryDescs) + Len(SameDescs) + Len(ArithDescs) + Len(BadDescs) + Len(EqualsDescs)>>)
+ASSUME PrintT(<<"generated", Len(Cases), "of", Len(UnaryDescs) + Len(SameDescs) + Len(ArithDescs) + Len(BadDescs) + Len(EqualsDescs) + Len(SelfDescs)>>)
 =============================================================================
